@@ -80,7 +80,7 @@ func isBlocker(id int) bool { return id >= 600 }
 
 func (o op) String() string {
 	switch o.K {
-	case 'P', 'D':
+	case 'P', 'D', 'Y':
 		return fmt.Sprintf("%c%d", o.K, o.N)
 	case 'T':
 		return fmt.Sprintf("T%d.%d", o.N, o.T)
@@ -137,7 +137,7 @@ func parseOps(s string) []op {
 			return r
 		}
 		switch f[0] {
-		case 'P', 'D':
+		case 'P', 'D', 'Y':
 			out = append(out, op{K: f[0], N: ints()[0]})
 		case 'T':
 			out = append(out, op{K: 'T', N: ints()[0], T: ints()[1]})
@@ -1022,6 +1022,27 @@ func runCaseAttempt(g *dag.Graph, ops []op, seed uint64, attempt int) {
 				expectGC(handled)
 				run.Count("gc-cancel:in-sweep")
 			}
+		case 'Y':
+			// Delete of a layer/config with the descriptor Resolve(<digest>) gives for a blob
+			// (application/octet-stream): clause 1 of the property - the content and the references
+			// to it go; the graph does not know this descriptor, nothing cascades
+			alt := g.Nodes[o.N].Desc
+			alt.MediaType = "application/octet-stream"
+			err, hung = w.guarded(func(c context.Context) error { return store.Delete(c, alt) })
+			kind = "delete-by-blob-descriptor"
+			if !tr.stored[o.N] {
+				expRes = "notfound"
+			}
+			delete(expStored, o.N)
+			delete(expDig, o.N)
+			for t, n := range tr.tags {
+				if n == o.N {
+					delete(expTags, t)
+				}
+			}
+			if tr.autosave {
+				doSave = len(expTags) != len(tr.tags) || len(expDig) != len(tr.digidx)
+			}
 		case 'D':
 			err, hung = w.guarded(func(c context.Context) error { return store.Delete(c, g.Nodes[o.N].Desc) })
 			kind = "delete"
@@ -1440,6 +1461,10 @@ func execOnly(g *dag.Graph, ops []op) (string, bool) {
 				store = ns
 				w.store = ns
 			}
+		case 'Y':
+			alt := g.Nodes[o.N].Desc
+			alt.MediaType = "application/octet-stream"
+			err, hung = w.guarded(func(c context.Context) error { return store.Delete(c, alt) })
 		case 'D':
 			err, hung = w.guarded(func(c context.Context) error { return store.Delete(c, g.Nodes[o.N].Desc) })
 		case 'G':
@@ -1533,6 +1558,14 @@ func genCase(r *common.Rand) (*dag.Graph, []op) {
 	}
 	// nodes of media type application/octet-stream are never tagged: Resolve(digest) could
 	// not tell the reference from the blob fallback
+	// layers/configs whose own media type is not application/octet-stream: Delete with the
+	// descriptor Resolve(<digest>) returns for them is a different descriptor
+	var altable []int
+	for _, n := range pushable {
+		if !g.Nodes[n].IsManifest() && g.Nodes[n].Desc.MediaType != "application/octet-stream" {
+			altable = append(altable, n)
+		}
+	}
 	var named []int
 	for _, n := range pushable {
 		if g.Nodes[n].Desc.MediaType != "application/octet-stream" {
@@ -1597,6 +1630,9 @@ func genCase(r *common.Rand) (*dag.Graph, []op) {
 		}
 		if r.Chance(1, 25) {
 			ops = append(ops, op{K: 'B', N: r.Intn(4)})
+		}
+		if len(altable) > 0 && r.Chance(1, 20) {
+			ops = append(ops, op{K: 'Y', N: common.Pick(r, altable)})
 		}
 		if r.Chance(1, 40) {
 			// a non-empty directory with a digest name: every later GC fails there
@@ -1966,7 +2002,7 @@ func coverageFloors(n int) {
 	}
 	need := map[string]int{"op:delete": n / 4, "op:gc": n / 4, "op:tag": n / 2, "op:push": 2 * n, "op:stray": n / 20, "repetitions": n / 2,
 		"gc-cancel:in-sweep": n / 50, "gc-cancel:before-rebuild": n / 100, "gc-cancel:completed": n / 100,
-		"op:autosave": n / 20, "op:saveindex": n / 50, "op:push-undecodable": n / 20, "op:gc-blocked": n / 50}
+		"op:autosave": n / 20, "op:saveindex": n / 50, "op:push-undecodable": n / 20, "op:gc-blocked": n / 50, "op:delete-by-blob-descriptor": n / 20}
 	if keepLiveDigests {
 		need["op:reopen"] = n / 20
 	}
